@@ -73,7 +73,9 @@ macro_rules! scalar_roundtrip {
         #[kani::unwind(12)]
         fn $name() {
             let v: $t = $any;
-            let mut out: Vec<u8> = Vec::new();
+            // capacity is concrete and sufficient: a Vec that grows by a symbolic amount (the varint
+            // length) is a symbolic-size allocation, which CBMC does not finish (out of memory)
+            let mut out: Vec<u8> = Vec::with_capacity(16);
             let wrote = <$t as RleValue>::pack::<Leb128>(v, &mut out);
             assert!(wrote);
             let n = out.len();
@@ -110,7 +112,7 @@ scalar_roundtrip!(pack_roundtrip_nonzero_u32, NonZeroU32, kani::any(), |v: NonZe
 #[kani::unwind(12)]
 fn pack_roundtrip_option_u64() {
     let v: Option<u64> = kani::any();
-    let mut out: Vec<u8> = Vec::new();
+    let mut out: Vec<u8> = Vec::with_capacity(16);
     let wrote = <Option<u64> as RleValue>::pack::<Leb128>(v, &mut out);
     assert_eq!(wrote, v.is_some());
     assert_eq!(<Option<u64> as RleValue>::is_null(v), v.is_none());
@@ -278,7 +280,7 @@ fn pack_roundtrip_string_char() {
     let mut tmp = [0u8; 4];
     let s: &str = c.encode_utf8(&mut tmp);
     let n = s.len();
-    let mut out: Vec<u8> = Vec::new();
+    let mut out: Vec<u8> = Vec::with_capacity(16);
     assert!(<String as RleValue>::pack::<Leb128>(s, &mut out));
     assert_eq!(out.len(), n + 1);
     assert_eq!(out[0] as usize, n);
@@ -317,7 +319,28 @@ fn string_roundtrip_ascii<const N: usize>() {
     kani::cover!(N == 0 || p[N - 1] == b'z');
     std::mem::forget(out);
 }
-fixed_len_harness!(pack_roundtrip_string_ascii_len0, string_roundtrip_ascii, 0, 4);
+
+/// The empty string round-trips through the checked and the unchecked decoder.
+#[kani::proof]
+#[kani::unwind(4)]
+fn pack_roundtrip_string_empty() {
+    let mut out: Vec<u8> = Vec::with_capacity(4);
+    assert!(<String as RleValue>::pack::<Leb128>("", &mut out));
+    assert!(out.len() == 1 && out[0] == 0);
+    match <String as RleValue>::try_unpack::<Leb128>(&out) {
+        Ok((used, back)) => {
+            assert!(used == 1 && back.is_empty());
+            kani::cover!(true);
+        }
+        Err(e) => {
+            std::mem::forget(e);
+            panic!("the empty string must unpack");
+        }
+    }
+    let (used, back) = <String as RleValue>::unpack::<Leb128>(&out);
+    assert!(used == 1 && back.is_empty());
+    std::mem::forget(out);
+}
 fixed_len_harness!(pack_roundtrip_string_ascii_len1, string_roundtrip_ascii, 1, 5);
 fixed_len_harness!(pack_roundtrip_string_ascii_len2, string_roundtrip_ascii, 2, 6);
 fixed_len_harness!(pack_roundtrip_string_ascii_len3, string_roundtrip_ascii, 3, 7);
